@@ -70,6 +70,9 @@ def main():
         if os.path.exists(mp0) and json.load(open(mp0)).get("neutralised_by"):
             print(f"{name}: neutralised ({json.load(open(mp0))['neutralised_by'][:80]}...)", flush=True)
             return
+        if os.path.exists(mp0) and json.load(open(mp0)).get("limitation"):
+            print(f"{name}: recorded limitation ({json.load(open(mp0))['limitation'][:80]}...)", flush=True)
+            return
         patch = d + "patch_rebased.diff" if os.path.exists(d + "patch_rebased.diff") else d + "patch.diff"
         rc, out = sh(f"git apply {patch}", cwd=wt)
         if rc != 0:
